@@ -919,6 +919,74 @@ class Scripts:
                     self.emit('env chip f 0x3f 0')
                     self.emit('#= fsktx_end 1 %s' % ''.join('%02x' % b for b in frame))
 
+    def dumps(self, n):
+        """C20: configurations reachable through the API in LoRa and FSK/OOK mode (and random
+        register files), then the simulator's view and sx127x_dump_registers"""
+        import json as _json
+        r = self.rnd
+        for _ in range(n):
+            mod = r.choice([LORA, FSK, FSK, OOK])
+            self.begin('dumpcfg', 'mod=%x' % mod)
+            self.prologue(mod, rand_chip=r.random() < 0.5)
+            cfg = {'mod': mod}
+            f = r.choice([137000000, 433920000, 868100000, 1020000000, r.randint(137000000, 1020000000)])
+            self.emit('set_frequency %d' % f)
+            cfg['freq'] = f
+            if mod == LORA:
+                bw = r.choice(self.api.enum_values('sx127x_bw_t'))
+                sf = r.choice(self.api.enum_values('sx127x_sf_t'))
+                cr = r.choice(self.api.enum_values('sx127x_cr_t'))
+                implicit = sf == 0x60 or r.random() < 0.3
+                if implicit:
+                    ln = r.randint(1, 255)
+                    self.emit('lora_set_implicit_header %d %d %d' % (ln, r.randint(0, 1), cr))
+                    cfg['plen'] = ln
+                else:
+                    self.emit('lora_set_implicit_header NULL')
+                    self.emit('lora_tx_set_explicit_header %d %d' % (r.randint(0, 1), cr))
+                self.emit('lora_set_bandwidth %d' % bw)
+                self.emit('lora_set_modem_config_2 %d' % sf)
+                sw = r.randint(0, 255)
+                self.emit('lora_set_syncword %d' % sw)
+                pre = r.choice([6, 8, 12, 65535, r.randint(6, 65535)])
+                self.emit('set_preamble_length %d' % pre)
+                cfg.update({'bw': bw, 'sf': sf, 'cr': cr, 'implicit': int(implicit), 'syncword': sw, 'preamble': pre})
+            else:
+                lo, hi = (1200.0, 300000.0) if mod == FSK else (1200.0, 25000.0)
+                br = r.choice([1200.0, 4800.0, 9600.0, hi, self.pick_float(lo, hi)])
+                self.emit('fsk_ook_set_bitrate %d' % f32bits(br))
+                cfg['bitrate'] = br
+                if mod == FSK:
+                    fd = r.choice([600.0, 5000.0, 200000.0, self.pick_float(600.0, 200000.0)])
+                    self.emit('fsk_set_fdev %d' % f32bits(fd))
+                    cfg['fdev'] = fd
+                rxbw = r.choice([2600.0, 5000.0, 20000.0, 250000.0, self.pick_float(2600.0, 250000.0)])
+                self.emit('fsk_ook_rx_set_bandwidth %d' % f32bits(rxbw))
+                fmt = r.choice([0x00, 0x80])
+                ln = r.choice([1, 255, 256, 1024, 1500, 2047, r.randint(1, 2047)]) if fmt == 0 else r.choice([255, 2047, r.randint(1, 255)])
+                self.emit('fsk_ook_set_packet_format %d %d' % (fmt, ln))
+                crc = r.choice(self.api.enum_values('sx127x_crc_type_t'))
+                self.emit('fsk_ook_set_crc %d' % crc)
+                filt = r.choice(self.api.enum_values('sx127x_address_filtering_t'))
+                self.emit('fsk_ook_set_address_filtering %d %d %d' % (filt, r.randint(0, 255), r.randint(0, 255)))
+                enc = r.choice(self.api.enum_values('sx127x_packet_encoding_t'))
+                self.emit('fsk_ook_set_packet_encoding %d' % enc)
+                pre = r.choice([0, 4, 65535, r.randint(0, 65535)])
+                self.emit('set_preamble_length %d' % pre)
+                cfg.update({'fmt': fmt, 'plen': ln, 'crc': crc, 'filt': filt, 'enc': enc, 'preamble': pre})
+            opm = r.choice([0, 1, 3, 5])
+            self.emit('set_opmod %d %d' % (opm, mod))
+            cfg['opmod'] = opm
+            self.emit('dump')
+            self.emit('dump_registers')
+            self.emit('#= dumpregs %s' % _json.dumps(cfg, separators=(',', ':')))
+            # and with a few API calls having gone through the cache before
+            self.emit('get_frequency')
+            self.emit('read_register %d' % r.choice([0x1d, 0x30, 0x31, 0x09]))
+            self.emit('dump')
+            self.emit('dump_registers')
+            self.emit('#= dumpregs {}')
+
     def floats(self, n):
         """C12: numeric setters / getters on step boundaries and random values"""
         r = self.rnd
